@@ -150,9 +150,20 @@ def thorough(ctx, out, seed):
                                        f"{s.what} on " + " vs ".join(str(t) for t in tags) + " (function outside the listed operations)"))
 
 
+def rule_r3(ctx) -> List[R.Inst]:
+    """conversions under row permutation: the column copy in cast() must not align on row labels (rule code of C08.R8)"""
+    from . import c08
+    out = []
+    for i in c08.rule_r8(ctx):
+        i.rule = "C15.R3"
+        out.append(i)
+    return out
+
+
 SPECS = [
     RuleSpec("C15.R1", rule_r1, 8, "A5", "positional pairing only between equally ordered sequences"),
     RuleSpec("C15.R2", rule_r2, 15, "A5", "order-dependent reductions only on sorted (or order-free) data"),
+    RuleSpec("C15.R3", rule_r3, 1, "A4", "converters copy columns by position, never by row label"),
 ]
 
 META = dict(
